@@ -1,0 +1,64 @@
+use std::ptr;
+
+/// An owning iterator over `len` consecutive elements starting at `ptr`,
+/// which are exclusively reserved for the creator and which stay allocated while the iterator lives.
+///
+/// Elements are moved out one by one as they are yielded;
+/// the elements which are not yielded are dropped together with the iterator.
+pub(crate) struct Taken<T> {
+    ptr: *mut T,
+    idx: usize,
+    len: usize,
+}
+
+impl<T> Taken<T> {
+    /// # Safety
+    ///
+    /// The `len` elements starting at `ptr` must be valid, must not be accessed by anyone else,
+    /// and must not be dropped by anyone else.
+    pub(crate) unsafe fn new(ptr: *mut T, len: usize) -> Self {
+        Self { ptr, idx: 0, len }
+    }
+}
+
+impl<T> Iterator for Taken<T> {
+    type Item = T;
+
+    #[inline]
+    fn next(&mut self) -> Option<Self::Item> {
+        match self.idx < self.len {
+            true => {
+                // SAFETY: idx < len; each position is read exactly once
+                let value = unsafe { self.ptr.add(self.idx).read() };
+                self.idx += 1;
+                Some(value)
+            }
+            false => None,
+        }
+    }
+
+    #[inline]
+    fn size_hint(&self) -> (usize, Option<usize>) {
+        let len = self.len - self.idx;
+        (len, Some(len))
+    }
+}
+
+impl<T> ExactSizeIterator for Taken<T> {}
+
+impl<T> Drop for Taken<T> {
+    fn drop(&mut self) {
+        let remaining = self.len - self.idx;
+        // SAFETY: positions idx..len have not been read
+        unsafe {
+            let first = self.ptr.add(self.idx);
+            self.idx = self.len;
+            ptr::drop_in_place(ptr::slice_from_raw_parts_mut(first, remaining));
+        }
+    }
+}
+
+// same as std::vec::IntoIter<T>
+unsafe impl<T: Send> Send for Taken<T> {}
+
+unsafe impl<T: Sync> Sync for Taken<T> {}
